@@ -105,6 +105,41 @@ func tokenSet(ts []string) map[string]bool {
 	return m
 }
 
+// parseSrcset splits a srcset attribute the way a browser does: candidates
+// are separated by commas that follow a descriptor or end a URL; a URL is a
+// run of non-whitespace whose trailing commas are separators.
+func parseSrcset(v string) []string {
+	var out []string
+	i := 0
+	isWS := func(b byte) bool { return b == ' ' || b == '\t' || b == '\n' || b == '\r' || b == '\f' }
+	for i < len(v) {
+		for i < len(v) && (isWS(v[i]) || v[i] == ',') {
+			i++
+		}
+		if i >= len(v) {
+			break
+		}
+		j := i
+		for j < len(v) && !isWS(v[j]) {
+			j++
+		}
+		url := v[i:j]
+		i = j
+		if strings.HasSuffix(url, ",") {
+			url = strings.TrimRight(url, ",")
+		} else {
+			// descriptors up to the next comma
+			for i < len(v) && v[i] != ',' {
+				i++
+			}
+		}
+		if url != "" {
+			out = append(out, url)
+		}
+	}
+	return out
+}
+
 // harness' own notion of "not rendered" for output HTML (used by C09)
 var rxDisplayNone = regexp.MustCompile(`(?i)display:\s*none`)
 var rxVisHidden = regexp.MustCompile(`(?i)visibility:\s*(hidden|collapse)`)
